@@ -8,6 +8,7 @@ import (
 	"os"
 	"sort"
 	"strings"
+	"sync/atomic"
 	"time"
 
 	"github.com/dgraph-io/badger"
@@ -234,6 +235,7 @@ func (c c10cfg) String() string {
 }
 
 type c10world struct {
+	thook atomic.Value // func(): called at the start of the custom transformer's Transform (get-race scenario)
 	cfg   c10cfg
 	h     *svcHarness
 	st    store.Store
@@ -313,6 +315,9 @@ func newC10World(cfg c10cfg) (*c10world, error) {
 				return string(p.ReplaceTag("id", strings.TrimPrefix(id, "k-")))
 			},
 			func(id string, v interface{}) (interface{}, error) {
+				if f, ok := w.thook.Load().(func()); ok && f != nil {
+					f()
+				}
 				switch x := v.(type) {
 				case map[string]interface{}:
 					out := map[string]interface{}{}
@@ -460,6 +465,62 @@ func (w *c10world) observeSeq(id string, vs []interface{}, dbg string) (rec, err
 	}
 	return rec{"judge": "coherent", "before": before, "evs": evs, "after": after, "stray": stray,
 		"dbg": fmt.Sprintf("%s %s %d operations in one transaction, first error=%v", w.cfg, dbg, len(vs), merr)}, nil
+}
+
+// getRace: while a get request is inside the transformer - after the handler has read the store -
+// another goroutine mutates the resource. The client takes the get response as its base and applies the
+// events published after it; that must give what a fresh get returns.
+func (w *c10world) getRace(id string, v interface{}, dbg string) (rec, error) {
+	rid := "test.r." + id
+	var fired int32
+	mdone := make(chan error, 1)
+	w.thook.Store(func() {
+		// only the first Transform call (the get request's) starts the race; the calls made by the
+		// mutation's own change callback pass through
+		if !atomic.CompareAndSwapInt32(&fired, 0, 1) {
+			return
+		}
+		go func() { mdone <- w.mutate(id, v) }()
+		select {
+		case err := <-mdone: // the write got through while the get was still being answered
+			mdone <- err
+		case <-time.After(25 * time.Millisecond): // the write waits for the get to finish
+		}
+	})
+	before, err := w.h.get(rid)
+	w.thook.Store(func() {})
+	if err != nil {
+		return nil, err
+	}
+	var merr error
+	if atomic.LoadInt32(&fired) == 0 {
+		// the get was answered without the transformer (value not in the store): an ordinary mutation
+		go func() { mdone <- w.mutate(id, v) }()
+	}
+	select {
+	case merr = <-mdone:
+	case <-time.After(3 * time.Second):
+		return nil, fmt.Errorf("mutation racing with a get did not finish")
+	}
+	// position of the get response among the published messages
+	pubs := w.h.conn.Pubs()
+	pos := -1
+	for i := len(pubs) - 1; i >= 0; i-- {
+		if strings.HasPrefix(pubs[i].Subject, "inbox.g") {
+			pos = i
+			break
+		}
+	}
+	evs, stray, _ := w.h.eventsSince(pos+1, rid)
+	after, err := w.h.get(rid)
+	if err != nil {
+		return nil, err
+	}
+	if os.Getenv("VERIF_C10_DEBUG") != "" {
+		fmt.Printf("GETRACE fired=%d before=%v evs=%v after=%v merr=%v\n", atomic.LoadInt32(&fired), before, evs, after, merr)
+	}
+	return rec{"judge": "coherent", "before": before, "evs": evs, "after": after, "stray": stray,
+		"dbg": fmt.Sprintf("%s %s: mutation while a get request was being answered (base = that get response, events after it), mutation-error=%v", w.cfg, dbg, merr)}, nil
 }
 
 // observe performs a mutation and records before / events / after.
@@ -628,6 +689,13 @@ func RunC10(c *core.Ctx) {
 						add(cfg, r, err)
 					}
 					continue
+				}
+				if cfg.trans == "custom" && step == 2 && v != nil {
+					if before, _ := w.h.get("test.r." + id); before != nil && before["t"] != "missing" {
+						r, err := w.getRace(id, v, fmt.Sprintf("history %d step %d", hI, step))
+						add(cfg, r, err)
+						continue
+					}
 				}
 				r, err := w.observe(id, v, fmt.Sprintf("history %d step %d", hI, step))
 				add(cfg, r, err)
